@@ -339,9 +339,16 @@ func (c *client41) sequenceOn(f failer, slot uint32, what string, ops ...nfsv4.N
 			f.FailP("C19", "retransmission-different-reply/SEQUENCE", "retransmitted %s: first reply status %d (%d results), second reply status %d (%d results), XDR bytes differ", what, res.Status, len(res.Resarray), res2.Status, len(res2.Resarray))
 		}
 		// Same slot and number, different content.
-		res3 := w.compound(1, what+"(false retry)", sequenceOp(s, slot, next), &nfsv4.NfsArgop4_OP_GETFH{}, &nfsv4.NfsArgop4_OP_GETFH{}, &nfsv4.NfsArgop4_OP_GETFH{}, &nfsv4.NfsArgop4_OP_GETFH{}, &nfsv4.NfsArgop4_OP_GETFH{})
-		if res3.Status != nfsv4.NFS4ERR_SEQ_FALSE_RETRY {
-			f.FailP("C19", "false-retry-answered/SEQUENCE", "a different request sent with the slot and sequence number of %s was answered %d (%d results) instead of NFS4ERR_SEQ_FALSE_RETRY", what, res3.Status, len(res3.Resarray))
+		// (once with the same number of operations, once with more)
+		for _, n := range []int{len(ops), len(ops) + 2} {
+			other := []nfsv4.NfsArgop4{sequenceOp(s, slot, next)}
+			for i := 0; i < n; i++ {
+				other = append(other, &nfsv4.NfsArgop4_OP_GETFH{})
+			}
+			res3 := w.compound(1, what+"(false retry)", other...)
+			if res3.Status != nfsv4.NFS4ERR_SEQ_FALSE_RETRY {
+				f.FailP("C19", "false-retry-answered/SEQUENCE", "a different request (%d x GETFH) sent with the slot and sequence number of %s was answered %d (%d results) instead of NFS4ERR_SEQ_FALSE_RETRY", n, what, res3.Status, len(res3.Resarray))
+			}
 		}
 		if after := w.snapshot(); after != before {
 			f.FailP("C19", "retransmission-side-effect/SEQUENCE", "retransmitted %s (first reply %d) changed state:\n--- before\n%s\n--- after\n%s", what, res.Status, before, after)
@@ -412,6 +419,50 @@ func (c *client41) open(f failer, ownerName, file string, access uint32, how ope
 		c.opens[ownerName][file] = &open41{ownerName: ownerName, leaf: leaf, sid: ok.Resok4.Stateid, bits: access, valid: true, locks: map[string]*lock41{}}
 	}
 	return st
+}
+
+// currentSID is the NFSv4.1 "current state ID" special value: it refers
+// to the state ID produced by an earlier operation of the same COMPOUND.
+var currentSID = nfsv4.Stateid4{Seqid: 1}
+
+// openIOClose sends OPEN, I/O and CLOSE in ONE compound, the later
+// operations referring to the open state through the current state ID.
+// Since CLOSE removes the open-owner's state for the file as a whole, any
+// earlier open of the same owner and file is gone afterwards, too.
+func (c *client41) openIOClose(f failer, ownerName, file string, access uint32) nfsv4.Nfsstat4 {
+	w := c.w
+	ops := []nfsv4.NfsArgop4{&nfsv4.NfsArgop4_OP_PUTROOTFH{}, &nfsv4.NfsArgop4_OP_OPEN{Opopen: nfsv4.Open4args{
+		ShareAccess: access, ShareDeny: nfsv4.OPEN4_SHARE_DENY_NONE,
+		Owner: nfsv4.OpenOwner4{Clientid: c.id, Owner: []byte(ownerName)}, Openhow: openflag(howNoCreate), Claim: &nfsv4.OpenClaim4_CLAIM_NULL{File: file},
+	}}}
+	if access&accRead != 0 {
+		ops = append(ops, ioOp(ioRead, currentSID))
+	}
+	if access&accWrite != 0 {
+		ops = append(ops, ioOp(ioWrite, currentSID))
+	}
+	ops = append(ops, &nfsv4.NfsArgop4_OP_CLOSE{Opclose: nfsv4.Close4args{OpenStateid: currentSID}})
+	linked := w.fs.linked[file] != nil
+	res := c.sequence(f, fmt.Sprintf("OPEN+IO+CLOSE41(%s,%s,%s,current stateid)", c.owner, ownerName, file), ops...)
+	if res == nil {
+		return nfsv4.NFS4ERR_BADSESSION
+	}
+	if opStatus(res, 0) != nfsv4.NFS4_OK {
+		return res.Status
+	}
+	if linked && res.Status != nfsv4.NFS4_OK {
+		f.FailP("C18", "entitled-refused/current-stateid", "OPEN, I/O and CLOSE of existing file %s in one COMPOUND through the current state ID failed with %d after %d results", file, res.Status, len(res.Resarray))
+	}
+	if res.Status == nfsv4.NFS4_OK {
+		if cur := c.opens[ownerName][file]; cur != nil && cur.leaf == w.fs.linked[file] {
+			cur.valid = false
+			for _, l := range cur.locks {
+				l.valid = false
+			}
+			c.releaseModelLocks(cur)
+		}
+	}
+	return res.Status
 }
 
 func (c *client41) close(f failer, op *open41) nfsv4.Nfsstat4 {
